@@ -233,6 +233,16 @@ def pyIslice (iterator : List β) (n : Nat) : List β × List β := (iterator.ta
 /-- `not l` for a list. -/
 def pyNot (l : List β) : Bool := l.isEmpty
 
+/-- `l * n` for a list `l`: `n` copies, concatenated. -/
+def pyListRepeat (l : List β) (n : Nat) : List β := (List.replicate n l).flatten
+
+/-- `x or d` for an `Optional[int]` `x`: `None` and `0` are falsy. -/
+def pyOptOr (x : Option Nat) (d : Nat) : Nat :=
+  match x with
+  | some 0 => d
+  | some n => n
+  | none => d
+
 def pyZip {γ : Type} (a : List β) (b : List γ) : List (β × γ) := a.zip b
 def pyList (l : List β) : List β := l
 def pyIter (l : List β) : List β := l
